@@ -932,9 +932,35 @@ syscall_mod!(
     unlink;
 );
 
-static SEND_TIME_LIMIT: Lazy<DashMap<c_int, u64>> = Lazy::new(Default::default);
+// The time limits are the socket's, not the descriptor number's: descriptors made by `dup`
+// share them (an option set through one of them holds for calls on the other).
+static SEND_TIME_LIMIT: Lazy<DashMap<Description, u64>> = Lazy::new(Default::default);
 
-static RECV_TIME_LIMIT: Lazy<DashMap<c_int, u64>> = Lazy::new(Default::default);
+static RECV_TIME_LIMIT: Lazy<DashMap<Description, u64>> = Lazy::new(Default::default);
+
+/// Remember the socket's send time limit (the option was just set).
+pub(crate) fn remember_send_time_limit(fd: c_int, time_limit: u64) {
+    if let Some(description) = description_of(fd) {
+        _ = SEND_TIME_LIMIT.insert(description, time_limit);
+    }
+}
+
+/// Remember the socket's receive time limit (the option was just set).
+pub(crate) fn remember_recv_time_limit(fd: c_int, time_limit: u64) {
+    if let Some(description) = description_of(fd) {
+        _ = RECV_TIME_LIMIT.insert(description, time_limit);
+    }
+}
+
+/// A descriptor is about to be closed. If it is the socket's last one the identity of the
+/// socket is free for reuse, and which close is the last cannot be known here: forget the
+/// limits (another descriptor of the socket asks the kernel again at its next call).
+pub(crate) fn forget_time_limits(fd: c_int) {
+    if let Some(description) = description_of(fd) {
+        _ = SEND_TIME_LIMIT.remove(&description);
+        _ = RECV_TIME_LIMIT.remove(&description);
+    }
+}
 
 extern "C" {
     #[cfg(not(any(target_os = "dragonfly", target_os = "vxworks")))]
@@ -1141,7 +1167,8 @@ pub extern "C" fn is_socket(fd: c_int) -> bool {
 
 #[must_use]
 pub extern "C" fn send_time_limit(fd: c_int) -> u64 {
-    SEND_TIME_LIMIT.get(&fd).map_or_else(
+    let description = description_of(fd);
+    description.and_then(|d| SEND_TIME_LIMIT.get(&d)).map_or_else(
         || unsafe {
             let mut tv: libc::timeval = std::mem::zeroed();
             let mut len = libc::socklen_t::try_from(size_of::<libc::timeval>()).expect("overflow");
@@ -1164,7 +1191,9 @@ pub extern "C" fn send_time_limit(fd: c_int) -> u64 {
                 return u64::MAX;
             }
             let time_limit = get_time_limit(&tv);
-            _ = SEND_TIME_LIMIT.insert(fd, time_limit);
+            if let Some(description) = description {
+                _ = SEND_TIME_LIMIT.insert(description, time_limit);
+            }
             time_limit
         },
         |v| *v.value(),
@@ -1173,7 +1202,8 @@ pub extern "C" fn send_time_limit(fd: c_int) -> u64 {
 
 #[must_use]
 pub extern "C" fn recv_time_limit(fd: c_int) -> u64 {
-    RECV_TIME_LIMIT.get(&fd).map_or_else(
+    let description = description_of(fd);
+    description.and_then(|d| RECV_TIME_LIMIT.get(&d)).map_or_else(
         || unsafe {
             let mut tv: libc::timeval = std::mem::zeroed();
             let mut len = libc::socklen_t::try_from(size_of::<libc::timeval>()).expect("overflow");
@@ -1196,7 +1226,9 @@ pub extern "C" fn recv_time_limit(fd: c_int) -> u64 {
                 return u64::MAX;
             }
             let time_limit = get_time_limit(&tv);
-            _ = RECV_TIME_LIMIT.insert(fd, time_limit);
+            if let Some(description) = description {
+                _ = RECV_TIME_LIMIT.insert(description, time_limit);
+            }
             time_limit
         },
         |v| *v.value(),
